@@ -73,6 +73,11 @@ func pickTopics(rng *rand.Rand, max int) []string {
 	for _, i := range perm[:n] {
 		out = append(out, u[i])
 	}
+	if rng.IntN(8) == 0 {
+		// the same topic twice in a row (a topic list is not a set)
+		k := rng.IntN(len(out))
+		out = append(out[:k+1], out[k:]...)
+	}
 	return out
 }
 
@@ -251,6 +256,9 @@ func genJoe(rng *rand.Rand, g jGen) *jScenario {
 			}
 			sc.PutFault[1+len(sc.Prefix)+rng.IntN(tok-len(sc.Prefix)+1)] = "err"
 		}
+	}
+	if sc.Replayer != "none" && rng.IntN(4) == 0 {
+		sc.ValRep = true
 	}
 	if g.Tweak != nil {
 		g.Tweak(rng, sc)
